@@ -124,6 +124,19 @@ def c16_r3(ctx):
         """the sort may only be skipped for buffers of fewer than two elements: its path condition must hold for every
         length >= 2 (atoms may only compare the buffer length with a literal)"""
         dnf_ = q.cond_of_block(facts, fn_, bi_)
+        # conditions evaluated BEFORE the element is received (the loop head: "still buffering?") are not guards of the sort: when the
+        # sort is dominated by the request for the next input, only the conditions between that request and the sort count
+        ins_ = [b_ for b_, t_ in fn_.calls() if (t_['callee'].get('path') or '').endswith('Operator::next') and fn_.dominates(b_, bi_) and b_ != bi_]
+        if ins_:
+            try:
+                from ..pathcond import simplify as _simp
+                st_ = fn_.blocks[ins_[-1]]['t'].get('target')
+                if st_ is not None:
+                    d2_ = q.pe(facts, fn_).paths(lambda bb, st: bb == bi_, start=st_)
+                    if d2_:
+                        dnf_ = _simp([a for a, _ in d2_])
+            except Exception:
+                pass
         import re as _re
         for ln in (2, 3, 4, 7):
             sat = False
